@@ -57,6 +57,37 @@ func init() {
 			up := m.(urlParts)
 			return i.mkURL(up.scheme, up.host, up.path, ""), nilErr()
 		}
+		// a concrete "scheme://host/..." prefix followed by path segments whose
+		// alphabets hold no URL meta character: everything after the host is the path
+		if segs := segmentsOf(raw); len(segs) > 1 {
+			if head, ok := segs[0].(string); ok {
+				if u, err := url.Parse(head); err == nil && u.Scheme != "" && u.Host != "" && strings.HasPrefix(u.Path, "/") && u.RawQuery == "" && u.Fragment == "" && !strings.ContainsAny(head, "?#%") {
+					plain := true
+					for _, sg := range segs[1:] {
+						switch sg := sg.(type) {
+						case string:
+							if strings.ContainsAny(sg, "?#% ") {
+								plain = false
+							}
+						case *Sym:
+							a, ok := i.path.alpha[sg.e]
+							if !ok {
+								plain = false
+								break
+							}
+							for b := 0; b < 256; b++ {
+								if a[b] && (b <= ' ' || b >= 0x7f || strings.IndexByte("?#%\"<>[]^`{|}", byte(b)) >= 0) {
+									plain = false
+								}
+							}
+						}
+					}
+					if plain {
+						return i.mkURL(u.Scheme, u.Host, mkConcat(u.Path, concatOf(segs[1:])), ""), nilErr()
+					}
+				}
+			}
+		}
 		unsup("url.Parse on a symbolic string that was not built with verifURL")
 		return nil, nil
 	}
